@@ -947,9 +947,15 @@ public:
 		{
 			if (dstCount == 0)
 			{
-				std::swap(mCount, dstTreeSet.mCount);
-				std::swap(mRootNode, dstTreeSet.mRootNode);
-				std::swap(mNodeParams, dstTreeSet.mNodeParams);
+				if (dstTreeSet.mNodeParams == nullptr)
+					dstTreeSet.mNodeParams = dstTreeSet.pvCreateNodeParams();
+				if (dstTreeSet.mRootNode != nullptr)
+					dstTreeSet.pvDestroy(dstTreeSet.mRootNode);
+				dstTreeSet.mCount = mCount;
+				mCount = 0;
+				dstTreeSet.mRootNode = mRootNode;
+				mRootNode = nullptr;
+				dstTreeSet.mNodeParams->MergeFrom(*mNodeParams);
 				mCrew.IncVersion();
 				dstTreeSet.mCrew.IncVersion();
 				return;
